@@ -254,6 +254,28 @@ def lifecycle(rep, u, vals):
     fr = [pos for pos, root, c, ps in fd.calls({"free"})]
     ok = st and fr and fd.pos_dominates(st[0], fr[0])
     (rep.proved if ok else rep.violated)("R-PAIR", fd, "stop-before-free", "destroy removes the registrations before it frees the task")
+    # the registrations are removed while the descriptor still names the registered file: every close / invalidation of the
+    # task's identifier is dominated by the stop (a deregistration issued with ident == -1 is refused by the validator, and
+    # closing one reference does not remove an epoll registration while the open file has other references)
+    nclose = 0
+    for fc in u.function_list:
+        if fc.relfile() != tp.TASK_C or not fc.has_cfg:
+            continue
+        stops = [pos for pos, root, c, ps in fc.calls({"tp_task_stop"})]
+        if not stops:
+            continue
+        sites = [(pos, "close", c.get("ln")) for pos, root, c, ps in fc.calls({"close"}) if "ident" in key(c["args"][0])]
+        sites += [(pos, "ident = -1", x.get("ln")) for pos, root, x, ps in fc.nodes() if x.get("k") == "bin" and x["op"] == "=" and
+                  key(core.strip_casts(x["x"])).endswith("tp_data.ident") and const_val(x["y"]) is not None]
+        for pos, what, ln_ in sites:
+            nclose += 1
+            rep.functions.add(fc.name)
+            ok = any(fc.pos_dominates(s_, pos) for s_ in stops)
+            (rep.proved if ok else rep.violated)("R-PAIR", fc, "stop-before-close:%s" % what, "%s: the registrations are removed (tp_task_stop) before the "
+                                                 "descriptor is closed / invalidated" % fc.name,
+                                                 "" if ok else "the %s at line %s is not dominated by tp_task_stop: the deregistration then runs with an invalid "
+                                                 "identifier and is refused; callbacks continue while another reference keeps the file open" % (what, ln_), ln_)
+    rep.floor("descriptor close / invalidate sites behind a stop", nclose, 2)
     fx = tp.need(u, "tp_task_start_ex")
     rep.functions.add(fx.name)
     direct = [pos for pos, root, c, ps in fx.calls({"tp_task_handler"})]
